@@ -178,4 +178,190 @@ example : (match toPackets ex1 with
                                  (Ref.u16 p.data 8).getD 99, (Ref.u16 p.data 10).getD 99]
     | _ => []) = [[1, 1, 0, 1, 1, 1, 0, 1]] := by decide
 
+/-! ### the compression table and the round trip -/
+
+/-- The invariant of the compression table (`NamesOK D names`: every entry `(key, off)`
+    has `off` inside the packet and below 2^14, `key` is the key of a non-empty sequence of
+    non-empty labels, and the reference reader reads exactly that sequence at `off`) is
+    preserved by `write_name`, and the name that was written reads back, at the position
+    where it was written, as the label sequence of the textual name - also when more
+    bytes follow.  (Names of at most 255 octets; the packet below 8972 + 255 + 16 bytes so
+    that every new offset fits a compression pointer.) -/
+theorem names_invariant_writeName (p p' : OutPacket) (name : BList) (h : p.writeName name = .ok p')
+    (hs : p.data.size + wlen (labelsOf name) ≤ 16384) (hn : NamesOK p.data p.names) :
+    NamesOK p'.data p'.names ∧
+    (wlen (labelsOf name) ≤ 255 → ∀ x : Data, ∃ e,
+      Ref.readName (p'.data ++ x) p.data.size = some (labelsOf name, e) ∧ e = p'.data.size) := by
+  obtain ⟨bs, new, h1, _, _, _, _, _, h7⟩ := writeName_spec p p' name h hs
+  obtain ⟨a, b⟩ := h7 p.data rfl hn
+  rw [← h1] at a b
+  refine ⟨a, fun hw x => ⟨_, b hw x, by rw [h1]; simp⟩⟩
+
+/-- `write_record` preserves the invariant of the compression table in both outcomes.
+    If the record does not fit, the packet is restored EXACTLY: same bytes, same table (the
+    repair of D3: without the `retain` the table would keep offsets into removed bytes). If
+    it fits, the reference reader finds, at the position where the record was written,
+    exactly the record that was added (owner labels, type, class, flush bit, TTL, RDATA
+    with PTR/SRV target labels), and the next entry starts where the packet now ends. -/
+theorem names_invariant_writeRecord (p p' : OutPacket) (r : RecIn) (now : Nat) (b : Bool)
+    (h : p.writeRecord r now = .ok (p', b)) (hw : RecWF r now) (hs : p.data.size ≤ MAX_MSG_ABSOLUTE)
+    (hn : NamesOK p.data p.names) :
+    NamesOK p'.data p'.names ∧
+    (b = false → p'.data = p.data ∧ p'.names = p.names) ∧
+    (b = true → ∀ x : Data, Ref.readRecord (p'.data ++ x) p.data.size = some (expRec r now, p'.data.size)) := by
+  have hb : ∀ e ∈ p.names, e.2 < p.data.size := fun e he => (hn e he).1
+  obtain ⟨s1, s2⟩ := writeRecord_spec p p' r now b h hw hs hb
+  cases b with
+  | false =>
+    obtain ⟨d1, d2⟩ := s1 rfl
+    exact ⟨by rw [d1, d2]; exact hn, fun _ => ⟨d1, d2⟩, fun hc => by simp at hc⟩
+  | true =>
+    obtain ⟨bs, new, a1, _, _, _, a5⟩ := s2 rfl
+    obtain ⟨c1, c2⟩ := a5 p.data rfl hn
+    rw [← a1] at c1 c2
+    refine ⟨c1, fun hc => by simp at hc, fun _ x => ?_⟩
+    rw [c2 x, a1]; simp
+
+/-- Every packet, read by the independent RFC 1035 reader, yields exactly what the model
+    wrote into it (`ghost`): `Ref.parse` succeeds - so the four header counts are matched
+    by the entries and the last entry ends the packet - and returns the id, the flags
+    (with TC on every packet but the last), the questions and the records of that packet
+    field by field.  Compression pointers, escaped dots and backslashes, roll-backs and the
+    TC continuation are all covered.  Hypotheses: `MsgWF` (names at most 255 octets, field
+    widths, RDATA kind matching the type) and `questionsSize o ≤ 8972`, which is D17. -/
+theorem parse_each_packet (o : OutMsg) (ps : List Packet) (h : toPackets o = .ok ps) (hw : MsgWF o)
+    (hq : questionsSize o ≤ MAX_MSG_ABSOLUTE) :
+    ∃ init last, ps = init ++ [last] ∧
+      (∀ p ∈ init, Ref.parse p.data = some (expMsg o (wireId o) true p.ghost)) ∧
+      Ref.parse last.data = some (expMsg o (wireId o) false last.ghost) :=
+  toPackets_parse o ps h hw hq
+
+/-- messages that the reference reader must return for a list of packets: TC on all but the last -/
+def expMsgs (o : OutMsg) : List Packet → List Ref.Msg
+  | [] => []
+  | [p] => [expMsg o (wireId o) false p.ghost]
+  | p :: rest => expMsg o (wireId o) true p.ghost :: expMsgs o rest
+
+theorem expMsgs_append (o : OutMsg) (init : List Packet) (last : Packet) :
+    expMsgs o (init ++ [last]) =
+      init.map (fun p => expMsg o (wireId o) true p.ghost) ++ [expMsg o (wireId o) false last.ghost] := by
+  induction init with
+  | nil => simp [expMsgs]
+  | cons p rest ih =>
+    cases hr : rest ++ [last] with
+    | nil => simp at hr
+    | cons q t =>
+      simp only [List.cons_append, hr, expMsgs, List.map_cons]
+      rw [← hr, ih]
+
+/-- **The property (C02), on the bytes returned by `to_data_on_wire`.**  For every message
+    in the domain (`MsgWF`; labels of 1..=63 bytes are implied by the encoder returning at
+    all) whose question section alone fits a packet (D17), there are messages `ms`, one
+    per packet, such that
+    * the reference reader parses packet `i` to `ms[i]` (hence header counts = entries
+      carried, nothing trailing);
+    * every packet is at most 8972 bytes;
+    * the questions of all packets together are exactly the questions added, in order;
+    * the answers / authorities / additionals of all packets together are an in-order
+      subsequence of the records added, each equal field by field (owner label sequence,
+      type, class, cache-flush bit, TTL, RDATA with PTR/SRV target label sequences) to
+      what `expRec` derives from the added record - so no packet contains a record or a
+      name that was not added;
+    * every packet but the last has the message flags with TC set, the last one the
+      message flags. -/
+theorem encode_sound (o : OutMsg) (ds : List Data) (h : encode o = .ok ds) (hw : MsgWF o)
+    (hq : questionsSize o ≤ MAX_MSG_ABSOLUTE) :
+    ∃ ms : List Ref.Msg,
+      ds.map Ref.parse = ms.map some ∧
+      (∀ d ∈ ds, d.size ≤ MAX_MSG_ABSOLUTE) ∧
+      ms.flatMap (·.questions) = o.questions.map expQ ∧
+      (ms.flatMap (·.answers)).Sublist (o.answers.map fun a => expRec a.1 a.2) ∧
+      (ms.flatMap (·.authorities)).Sublist (o.authorities.map (expRec · 0)) ∧
+      (ms.flatMap (·.additionals)).Sublist (o.additionals.map (expRec · 0)) ∧
+      ∃ init last, ms = init ++ [last] ∧
+        (∀ m ∈ init, m.flags = (o.flags ||| FLAGS_TC) % 65536) ∧ last.flags = o.flags % 65536 := by
+  unfold encode at h
+  cases hp : toPackets o with
+  | err => simp [hp] at h
+  | panic => simp [hp] at h
+  | ok ps =>
+    simp only [hp, Res.ok.injEq] at h
+    subst h
+    obtain ⟨init, last, rfl, hi, hl⟩ := toPackets_parse o ps hp hw hq
+    obtain ⟨g1, g2, g3, g4⟩ := carried_in_order o _ hp
+    refine ⟨expMsgs o (init ++ [last]), ?_, ?_, ?_, ?_, ?_, ?_, ?_⟩
+    · rw [expMsgs_append]
+      simp only [List.map_append, List.map_map, List.map_cons, List.map_nil]
+      congr 1
+      · apply List.map_congr_left
+        intro p hp'
+        simpa [ParseOK] using hi p hp'
+      · simpa [ParseOK] using hl
+    · intro d hd
+      obtain ⟨p, hp', rfl⟩ := List.mem_map.mp hd
+      exact packet_size o _ hp hq p hp'
+    · rw [expMsgs_append, ← g1]
+      simp [List.flatMap_append, expMsg, List.flatMap_map, List.map_flatMap]
+    · have := g2.map (fun a => expRec a.1 a.2)
+      rw [expMsgs_append]
+      simpa [List.flatMap_append, expMsg, List.flatMap_map, List.map_flatMap] using this
+    · have := g3.map (expRec · 0)
+      rw [expMsgs_append]
+      simpa [List.flatMap_append, expMsg, List.flatMap_map, List.map_flatMap] using this
+    · have := g4.map (expRec · 0)
+      rw [expMsgs_append]
+      simpa [List.flatMap_append, expMsg, List.flatMap_map, List.map_flatMap] using this
+    · refine ⟨init.map (fun p => expMsg o (wireId o) true p.ghost), expMsg o (wireId o) false last.ghost,
+        expMsgs_append o init last, ?_, by simp [expMsg]⟩
+      intro m hm
+      obtain ⟨p, _, rfl⟩ := List.mem_map.mp hm
+      simp [expMsg]
+
+/-- non-vacuity: `ex1` is in the domain, its question section fits, and the reference
+    reader does return the three entries with their label sequences (`a.b`: two labels,
+    `c\.d.a.b`: first label `c.d`), read through two compression pointers -/
+example : MsgWF ex1 ∧ questionsSize ex1 ≤ MAX_MSG_ABSOLUTE := by decide
+
+example : (match encode ex1 with | .ok ds => ds.map Ref.parse | _ => []) =
+    [some { id := 0, flags := 0,
+            questions := [{ name := [[0x61], [0x62]], qtype := 12, qclass := 1 }],
+            answers := [{ name := [[0x61], [0x62]], type := 12, cls := 1, flush := false, ttl := 120,
+                          rdata := .ptr [[0x63, 0x2E, 0x64], [0x61], [0x62]] }],
+            authorities := [],
+            additionals := [{ name := [[0x63, 0x2E, 0x64], [0x61], [0x62]], type := 1, cls := 1, flush := true,
+                              ttl := 4500, rdata := .a [10, 0, 0, 1] }] }] := by decide +kernel
+
+/-- The last clause of the property, "the crate's own decoder reads the same content from
+    those packets", as a statement about the decoder model of C01 (`Wire.decode`): NOT
+    proved here.  It needs a second invariant family (every pointer written by the encoder
+    targets a name that starts before the name being read, which is the decoder's rule
+    `pointer < start_offset`, plus UTF-8 validity of the labels).  It is checked on every
+    run instead: the monitor compares what `DnsIncoming::new` reads from each real packet
+    with `viewMsg (Ref.parse packet)` (clauses `own-decoder-rejects`, `own-decoder-differs`). -/
+def decode_agrees : Prop :=
+  ∀ (o : OutMsg) (ds : List Data), encode o = .ok ds → MsgWF o → questionsSize o ≤ MAX_MSG_ABSOLUTE →
+    (∀ n ∈ (o.questions.map (·.name)), ∀ l ∈ labelsOf n, validUtf8 l = true) →
+    ∀ d ∈ ds, ∃ m v, Ref.parse d = some m ∧ viewMsg m = some v ∧
+      (Wire.decode d).map (fun w => { w with
+          answers := w.answers.map ({ · with start := 0, stop := 0 }),
+          authorities := w.authorities.map ({ · with start := 0, stop := 0 }),
+          additionals := w.additionals.map ({ · with start := 0, stop := 0 }) }) = .ok v
+
+/-- The property at full strength = what `encode_sound` proves + the decoder clause. -/
+def C02_full : Prop :=
+  (∀ (o : OutMsg) (ds : List Data), encode o = .ok ds → MsgWF o → questionsSize o ≤ MAX_MSG_ABSOLUTE →
+    ∃ ms : List Ref.Msg,
+      ds.map Ref.parse = ms.map some ∧ (∀ d ∈ ds, d.size ≤ MAX_MSG_ABSOLUTE) ∧
+      ms.flatMap (·.questions) = o.questions.map expQ ∧
+      (ms.flatMap (·.answers)).Sublist (o.answers.map fun a => expRec a.1 a.2) ∧
+      (ms.flatMap (·.authorities)).Sublist (o.authorities.map (expRec · 0)) ∧
+      (ms.flatMap (·.additionals)).Sublist (o.additionals.map (expRec · 0)) ∧
+      ∃ init last, ms = init ++ [last] ∧
+        (∀ m ∈ init, m.flags = (o.flags ||| FLAGS_TC) % 65536) ∧ last.flags = o.flags % 65536) ∧
+  decode_agrees
+
+/-- `C02_full` with the decoder clause as the one missing piece. -/
+theorem encode_sound_partial (hd : decode_agrees) : C02_full :=
+  ⟨fun o ds h hw hq => encode_sound o ds h hw hq, hd⟩
+
 end Mdns.Props.C02
